@@ -483,6 +483,26 @@ def run(case, ctx):
                 ctx.violate(f"C14/reordered≠/{kind}", f"the same definition with the entries of its mapping arguments / keywords in another order "
                             f"compares unequal ({eqr if okq else eqr!r}):\n {x1!r}\n {xro!r}")
     oky, y = call(mk, yt)
+    if oky:
+        # x is compared with an equal copy that is then DROPPED; an object built right afterwards (possibly at the freed
+        # address) is a stranger to x: the comparison with it is decided on its merits
+        ok0, first = call(lambda: (x1 == y, y == x1))
+        okt, _t = call(lambda: (x1 == mk(xt), mk(xt) == x1))
+        ok1, later = call(lambda: [(x1 == z, z == x1) for z in (mk(yt) for _ in range(3))])
+        ctx.count("compared-after-a-dropped-equal-copy")
+        if ok0 and ok1 and any(l != first for l in later):
+            ctx.violate(f"C14/stale-comparison/{kind}/{atom}", f"x == y gave {first} for a long-lived y, and {later} for equal objects built "
+                        f"right after an equal copy of x was compared and dropped\n x={x1!r}\n y={y!r}")
+    if oky and kind == "rule" and atom == "cast":
+        # the changed rule built from x's OWN path and condition objects (what copy.copy + a new cast gives)
+        import valida
+        oks, ysh = call(lambda: valida.Rule(x1.path, x1.condition, cast=y.cast, doc=getattr(x1, "doc", None)))
+        if oks:
+            ctx.count("changed-copy-sharing-sub-objects")
+            okq, eqs_ = call(lambda: ((x1 == ysh, ysh == x1), (x1 == y, y == x1)))
+            if okq and eqs_[0] != eqs_[1]:
+                ctx.violate("C14/shared-sub-objects/rule/cast", f"x == (x's path and condition objects with another cast) is {eqs_[0]}, "
+                            f"x == (the same rule built separately) is {eqs_[1]}\n x={x1!r}\n y={y!r}")
     pairs = {"rebuilt": (x1, x2), "commuted": (x1, xc)}
     if oky:
         pairs["changed"] = (x1, y)
